@@ -126,11 +126,15 @@ def world_text(fdir, fmin, fmax, models):
                       "coordinates": [[0, 0], [1e6, 0], [1e6, 1e6], [0, 1e6]], "temperature models": models}]})
 
 
-def one_case(fdir, kind, m, fmin, fmax, depths, work):
+def one_case(fdir, kind, m, fmin, fmax, depths, work, json_min_depth=None):
+    """json_min_depth: how "min depth" is written in the file when it is a surface (values at points); m['min depth'] is then
+    its value in the queried column (500 km, 500 km), which is a listed point"""
     import oracle
     base = {"model": "uniform", "temperature": 500.0}
     mm = dict(m)
     mm['model'] = kind
+    if json_min_depth is not None:
+        mm['min depth'] = json_min_depth
     q = oracle.Q(world_text(fdir, fmin, fmax, [base, mm]), work)
     try:
         if q.construct_error:
@@ -283,6 +287,19 @@ def native_oracle(witness, work, search_seed=None):
         r = one_case(fdir, kind, m, fmin, fmax, ds, work)
         if r is not None:
             return r
+    if kind in ('chapman', 'linear') and fdir in FEATURE_NAME:
+        # laterally varying model top: the documented expression is measured from the top in the queried column
+        # (a listed point of the surface), not from the shallowest top anywhere
+        for local_top, shallowest in [(30e3, 10e3), (20e3, 5e3)]:
+            m = {'min depth': local_top, 'max depth': 150e3, 'operation': 'replace'}
+            if kind == 'chapman':
+                m.update({'top temperature': 293.15, 'thermal conductivity': 2.5, 'top heat flux': 0.055, 'heat generation per unit volume': 0.9e-6})
+            else:
+                m.update({'top temperature': 300.0, 'bottom temperature': 1300.0})
+            r = one_case(fdir, kind, m, 0.0, 200e3, [local_top, local_top + 1e3, local_top + 20e3, 100e3], work,
+                         json_min_depth=[[shallowest], [local_top, [[500e3, 500e3]]]])
+            if r is not None:
+                return r
     return dict(status='holds', detail='%d worlds of family %s, model %s agree with the documented expression' % (len(cases), fdir, kind))
 
 
